@@ -1377,6 +1377,25 @@ func c03xHistory(e *c03Env, rec *vRecorder, stream, kind string, ops []c03xOp) {
 			}
 		}
 		rec.hist["xop_"+k]++
+		if op.Kind == "ask" && outs[i].Exists {
+			// observation (C03_Refuted.v, C03_filter_since_is_not_inherited_since): the since value reported by
+			// FilterToAvailableCollectionChannels is older than the one of InheritedCollectionChannels
+			inh := c03xPairMap(outs[i].Inh)
+			for j, q := range op.Qs {
+				star := false
+				for _, c := range q {
+					star = star || c == c03xStar
+				}
+				if star {
+					continue
+				}
+				for _, f := range outs[i].Ans[j].Filtered {
+					if s, ok := inh[f.N]; ok && f.S < s {
+						rec.hist["ask_filter_since_older_than_inherited_since"]++
+					}
+				}
+			}
+		}
 		if (op.Kind == "loaduser" || op.Kind == "loadrole") && len(outs[i].Hist) > 0 {
 			rec.hist["load_with_channel_history"]++
 		}
